@@ -84,6 +84,24 @@ def projection_convention(fi):
             continue  # no (or double) conjugation: not a sesquilinear coefficient
         basis = sides[0][1] if sides[0][0] else sides[1][1]
         other = sides[1][1] if sides[0][0] else sides[0][1]
+        # a Rayleigh quotient <A q, q> is not a projection coefficient: the conjugated vector is the operator applied to the other
+        # one, and for the Hermitian operators of a Lanczos run the value is real whichever side carries the conjugate
+        def applies_operator_to(names, others, depth=0):
+            for nm in names:
+                for val, _p, _st in asg.get(nm, []):
+                    if isinstance(val, ast.AugAssign):
+                        continue
+                    if any(isinstance(x, ast.BinOp) and isinstance(x.op, ast.MatMult) for x in ast.walk(val)):
+                        inner = set(df.names_in(val))
+                        if inner & set(others):
+                            return True
+                        if depth < 2 and applies_operator_to(inner - {nm}, others, depth + 1):
+                            return True
+                    elif depth < 2 and applies_operator_to(set(df.names_in(val)) - {nm}, others, depth + 1):
+                        return True
+            return False
+        if applies_operator_to(basis, other) or applies_operator_to(other, basis):
+            continue
         name = bound.get(id(v))
         if name is None:
             # stored straight into a coefficient buffer:  h = update_array(h, <coefficient>, ...)
@@ -164,6 +182,23 @@ def norm_written(fi, buffer_param_names=None):
             val = c.args[1]
             out.append((buf, is_norm_expr(val, asg), c))
     return out
+
+
+def is_norm_value(idx, fi, e, depth=0):
+    """e is a vector norm: xnp.norm(..) / abs(..), a local bound to one, or a call of a cola helper all of whose returns are norms"""
+    e = df.resolve_value(fi.node, e)
+    if isinstance(e, ast.Subscript):
+        return is_norm_value(idx, fi, e.value, depth + 1)
+    if isinstance(e, ast.Call):
+        if df.is_xnp_call(e) in ("norm", "abs") or (isinstance(e.func, ast.Attribute) and e.func.attr == "norm"):
+            return True
+        if depth < 3:
+            r = idx.resolve_expr(fi.module, e.func, fi)
+            if r is not None and r.kind == "funcs" and getattr(r.val[-1], "rule", None) is None:
+                callee = r.val[-1]
+                rets = [x for x in df.returns(callee.node) if x.value is not None]
+                return bool(rets) and all(is_norm_value(idx, callee, x.value, depth + 1) for x in rets)
+    return False
 
 
 def is_norm_expr(e, asg, depth=0):
@@ -262,12 +297,11 @@ def first_column_obligation(idx, rep, init, column, construct):
 
 
 # ------------------------------------------------------------------------------------------------
-def breakdown_stops(idx, rep, fact, rule, construct, counter_slot, cap_name="max_iters"):
+def breakdown_stops(idx, rep, fact, rule, construct, counter_slot, cap_name="max_iters", cond=None):
     """the loop condition of a Krylov factorisation, evaluated at an EXACT breakdown (every residual / norm quantity of the state is 0,
     the counter is past its first-step exemption and below the cap), must be False: otherwise the next step divides 0 by 0.
     Constant folding over the condition: state arrays -> 0, tol * 0 -> 0, counter > small constants, counter < cap."""
-    cond = next((g for g in fact.nested.values() if g.name.startswith("cond")), None)
-    if cond is None or not cond.params:
+    if cond is None or not getattr(cond, "params", None):
         rep.undecided(rule, construct, "no nested condition function found")
         return
     state = cond.params[0]
